@@ -313,7 +313,7 @@ def graytone [Sc α] (l : α) : Color α := fromHsla 0.0 0.0 l 1.0
 
 /-- `Color::rotate_hue` (lib.rs:545). -/
 def rotateHue [Sc α] (c : Color α) (delta : α) : Color α :=
-  fromHsla (hueValue c.hue + delta) c.sat c.light c.alpha
+  fromHsla (hueValue c.hue + fmod delta 360.0) c.sat c.light c.alpha
 
 def complementary [Sc α] (c : Color α) : Color α := rotateHue c 180.0
 
